@@ -201,6 +201,68 @@ func main() {
 			}
 			return true
 		})
+		// 5. the worker goroutine of a health check: between taking a tick and calling the health function, does it look at
+		// its context again? (pkg/clusters/endpoint.go, startGatewayHealthCheck)
+		const efile = "pkg/clusters/endpoint.go"
+		ef := g.ParseFile(efile)
+		sg := lib.FuncDecl(ef, "", "startGatewayHealthCheck")
+		if sg == nil || sg.Body == nil {
+			lib.Fatalf("startGatewayHealthCheck not found in %s", efile)
+		}
+		workerFound, rechecks := false, false
+		ast.Inspect(sg.Body, func(n ast.Node) bool {
+			cc, ok := n.(*ast.CommClause)
+			if !ok {
+				return true
+			}
+			callsHealth := -1
+			for i, st := range cc.Body {
+				ast.Inspect(st, func(m ast.Node) bool {
+					if c, ok := m.(*ast.CallExpr); ok && strings.HasSuffix(sel(c.Fun), "healthCheckFun") && callsHealth < 0 {
+						callsHealth = i
+					}
+					return true
+				})
+			}
+			if callsHealth < 0 {
+				return true
+			}
+			workerFound = true
+			for _, st := range cc.Body[:callsHealth+1] {
+				ifs, ok := st.(*ast.IfStmt)
+				if !ok {
+					continue
+				}
+				mentionsCtx, leaves := false, false
+				ast.Inspect(ifs.Cond, func(m ast.Node) bool {
+					if id, ok := m.(*ast.Ident); ok && id.Name == "ctx" {
+						mentionsCtx = true
+					}
+					return true
+				})
+				ast.Inspect(ifs.Body, func(m ast.Node) bool {
+					switch m.(type) {
+					case *ast.ReturnStmt, *ast.BranchStmt:
+						leaves = true
+					}
+					return true
+				})
+				hc := false
+				ast.Inspect(ifs.Body, func(m ast.Node) bool {
+					if c, ok := m.(*ast.CallExpr); ok && strings.HasSuffix(sel(c.Fun), "healthCheckFun") {
+						hc = true
+					}
+					return true
+				})
+				if mentionsCtx && leaves && !hc {
+					rechecks = true
+				}
+			}
+			return true
+		})
+		if !workerFound {
+			lib.Fatalf("the select case of startGatewayHealthCheck that calls healthCheckFun was not found: shape unknown")
+		}
 		var b strings.Builder
 		b.WriteString("namespace KG.Gen.C03\n")
 		b.WriteString("/-! shape of dispatcher.ServeHTTP in " + file + " -/\n")
@@ -216,6 +278,7 @@ func main() {
 		fmt.Fprintf(&b, "/-- the innermost condition guarding the `UpdateStatus(true, …)` call -/\ndef healthTrueGuard : String := %q\n", trueGuard)
 		fmt.Fprintf(&b, "/-- … which sits in the else branch of this condition -/\ndef healthTrueElseOf : String := %q\ndef healthTrueInElse : Bool := %v\n", outerGuard, inElse)
 		fmt.Fprintf(&b, "/-- `statusCode` is what `result.StatusCode(&statusCode)` reports -/\ndef healthReadsStatusCode : Bool := %v\n", readsStatus)
+		fmt.Fprintf(&b, "/-- the health-check worker re-checks its context after taking a tick and leaves without probing when it was cancelled -/\ndef healthWorkerRechecksCtx : Bool := %v\n", rechecks)
 		b.WriteString("end KG.Gen.C03\n")
 		g.Emit("C03.lean", b.String())
 	})
